@@ -77,6 +77,9 @@ where
     pub context: Vec<Rc<RefCell<BlockState<I>>>>,
     /// Error state results stack
     pub errors: Vec<error::StateErrorResult>,
+    /// Result type of the function whose body is being analyzed
+    #[cfg_attr(feature = "codec", serde(skip))]
+    fn_result_type: Option<Type>,
     phantom: PhantomData<E>,
 }
 
@@ -107,6 +110,7 @@ where
             },
             context: Vec::new(),
             errors: Vec::new(),
+            fn_result_type: None,
             phantom: PhantomData,
         }
     }
@@ -366,6 +370,8 @@ where
         self.add_state_context(body_state.clone());
         // Init function parameters - add to SemanticStackContext
         self.init_func_params(&body_state, &data.parameters);
+        // Nested return statements are checked against the result type
+        self.fn_result_type = Some(data.result_type.clone().into());
         // Flag to indicate is function return called
         let mut return_is_called = false;
         // Fetch function elements and gather errors
@@ -437,6 +443,7 @@ where
                 }
             }
         }
+        self.fn_result_type = None;
         // Check is function contain return
         if !return_is_called {
             self.add_error(error::StateErrorResult::new(
@@ -706,6 +713,25 @@ where
         function_body_state.borrow_mut().last_register_number
     }
 
+    /// Check the value of a `return` from a nested block against the
+    /// result type of the function that is being analyzed.
+    fn check_return_type(
+        &mut self,
+        res: &ExpressionResult,
+        expression: &ast::Expression<'_, I, E>,
+    ) {
+        if let Some(fn_ty) = &self.fn_result_type {
+            if fn_ty != &res.expr_type {
+                let expr: Expression = expression.clone().into();
+                self.add_error(error::StateErrorResult::new(
+                    error::StateErrorKind::WrongReturnType,
+                    expr.to_string(),
+                    expression.location(),
+                ));
+            }
+        }
+    }
+
     /// # If-condition body
     /// Analyze body for ant if condition:
     /// - if, else, if-else
@@ -752,6 +778,7 @@ where
                 ast::IfBodyStatement::Return(expression) => {
                     let expr_result = self.expression(expression, if_body_state);
                     if let Some(res) = expr_result {
+                        self.check_return_type(&res, expression);
                         // Jump to return label in codegen and set return
                         // status to indicate function, that it's manual
                         // return
@@ -828,6 +855,7 @@ where
                 ast::IfLoopBodyStatement::Return(expression) => {
                     let expr_result = self.expression(expression, if_body_state);
                     if let Some(res) = expr_result {
+                        self.check_return_type(&res, expression);
                         // Jump to return label in codegen and set return
                         // status to indicate function, that it's manual
                         // return
@@ -1156,6 +1184,7 @@ where
                 ast::LoopBodyStatement::Return(expression) => {
                     let expr_result = self.expression(expression, &loop_body_state);
                     if let Some(res) = expr_result {
+                        self.check_return_type(&res, expression);
                         // Jump to return label in codegen and set return
                         // status to indicate function, that it's manual
                         // return
